@@ -134,8 +134,11 @@ fn value(r: &mut Rng, sw: &Swarm) -> Vec<u8> {
         r.below(24)
     };
     let mut v: Vec<u8> = Vec::new();
+    // long values are "plain" half of the time: no SP/HTAB/obs-text inside, so that unrolled
+    // vector loops that only run over clean stretches are actually entered
+    let plain = n >= 40 && r.chance(1, 2);
     for i in 0..n {
-        let b = match r.below(20) {
+        let b = match if plain { 10 } else { r.below(20) } {
             0 if i > 0 && i + 1 < n => b' ',
             1 if i > 0 && i + 1 < n => b'\t',
             2 if r.chance(sw.obs, 16) => *r.pick(&[0x80u8, 0xff, 0xe9, 0xbf]),
@@ -894,7 +897,10 @@ pub fn gen_sweep(seed: u64, o: &GenOpts) -> Trace {
 pub fn gen_reuse(seed: u64, o: &GenOpts) -> Trace {
     let base = Rng::new(seed);
     let (mut rw, mut rf, mut rk) = (base.split(1), base.split(2), base.split(4));
-    let sw = Swarm::draw(&mut rk);
+    let mut sw = Swarm::draw(&mut rk);
+    if rk.chance(1, 24) {
+        sw.long = true;
+    }
     let kind = if rk.chance(1, 2) { Kind::Req } else { Kind::Resp };
     let mut t = Trace::empty(Scen::Reuse, kind);
     t.seed = seed;
@@ -962,8 +968,13 @@ pub fn gen_reuse(seed: u64, o: &GenOpts) -> Trace {
     if rk.chance(1, 3) {
         let probe = t.ops.last().unwrap().buf.clone();
         let k = t.ops.len();
+        let marks: Vec<usize> = probe.iter().enumerate().filter(|(_, &b)| matches!(b, b' ' | b':' | b'\r' | b'\n')).map(|(i, _)| i).take(400).collect();
+        let keep_first = rk.chance(1, 2);
         for (i, op) in t.ops.iter_mut().enumerate().take(k - 1) {
-            let cut = probe.len() * (i + 1) / k;
+            if i == 0 && keep_first {
+                continue; // an unrelated earlier message stays first in the history
+            }
+            let cut = if !marks.is_empty() && rk.chance(1, 2) { (*rk.pick(&marks) + rk.below(10)).min(probe.len()) } else { probe.len() * (i + 1) / k };
             op.buf = probe[..cut].to_vec();
         }
     }
@@ -1000,7 +1011,7 @@ pub fn gen_adversarial(seed: u64, max_len: usize) -> Trace {
         Kind::Resp => v.extend_from_slice(b"HTTP/1.1 200 OK\r\n"),
         _ => {}
     }
-    let fam = rk.below(10);
+    let fam = rk.below(11);
     match (kind, fam) {
         (Kind::Chunk, _) => {
             v.extend_from_slice(b"1a ;");
@@ -1024,6 +1035,21 @@ pub fn gen_adversarial(seed: u64, max_len: usize) -> Trace {
             }
             while v.len() < target_len {
                 match fam {
+                    10 => {
+                        // one long line that ignore-invalid drops, with a lone CR or a NUL placed
+                        // around a power-of-two distance from its offending byte
+                        v.extend_from_slice(b"Bad ");
+                        let k = r.range(6, 16);
+                        let at = ((1usize << k) + r.below(4)).saturating_sub(2);
+                        for i in 0..(at + r.range(1, 300)) {
+                            v.push(if i == at { *r.pick(b"\r\r\0") } else { b'x' });
+                        }
+                        v.extend_from_slice(b"name: value\r\nGood: 1\r\n");
+                        if r.chance(1, 2) {
+                            v.extend_from_slice(b"\r\n");
+                            break;
+                        }
+                    }
                     9 => {
                         // tens of thousands of tiny lines (ignored when the config says so): line
                         // counters must not wrap or saturate
